@@ -786,19 +786,25 @@ class Manager:
         if not self.running:
             return
 
-        self._running = False
+        # For a loop running in another thread, clearing the flag, queueing
+        # ``stopped`` and handing over the exit code are one step: run() takes
+        # the same lock before it decides that nothing is left to do.
+        with self._lock:
+            self._running = False
 
-        self.fire(stopped(self))
+            self.fire(stopped(self))
 
-        if self.root._executing_thread is None:
+            executing = self.root._executing_thread
+            if executing is not None and code is not None:
+                # run() raises it once everything queued has been processed
+                self._exit_code = code
+
+        if executing is None:
             for _ in range(3):
                 self.tick()
 
             if code is not None:
                 raise SystemExit(code)
-        elif code is not None:
-            # run() raises it once everything queued has been processed
-            self._exit_code = code
 
     def processTask(self, event, task, parent=None):  # noqa
         # TODO: C901: This has a high McCabe complexity score of 16.
@@ -973,8 +979,14 @@ class Manager:
         self.fire(started(self))
 
         try:
-            while self.running or len(self._queue):
-                self.tick()
+            while True:
+                while self.running or len(self._queue):
+                    self.tick()
+                # stop() from another thread may be between clearing the flag
+                # and queueing ``stopped``: look again under its lock
+                with self._lock:
+                    if not (self.running or len(self._queue)):
+                        break
             # Fading out, handle remaining work from stop event
             for _ in range(3):
                 self.tick()
